@@ -20,6 +20,9 @@
 (*            - independent processes that run at any later time.  As the code stands they        *)
 (*            delete WHATEVER entry exists when they finally run (deviations unbanLive/unblLive). *)
 (*   CleanF / CleanB / CleanL   cleanup(): failure records, expired bans; IPManager.cleanup().    *)
+(*            CleanL is ONE step here; BruteForceLists.tla opens it (and the operator's calls) up to   *)
+(*            lock acquisitions and storage calls - the granularity at which a pass interleaves with  *)
+(*            AddToBlacklist / AddToWhitelist / the removals / a restart.                              *)
 (*   Clean    one whole cleanup() run (CleanF then CleanB back to back): what a sequential        *)
 (*            driver can call; the exhaustive configurations use the two halves separately.       *)
 (*   MUnban / MUnbl / Blk / BlkP / Wl / UnWl   operator actions (legitimate, not violations).     *)
@@ -472,6 +475,10 @@ FloodHs(i, kind) ==   \* FloodN registration handshakes back to back through Han
 \* scanned address) deletes whatever ban exists by then - also one recorded after the scan
 \* (deviation cleanLive).  These two actions are in the alphabet of the deviation configurations
 \* only; their schedules are unrealisable on code whose clean-up is one critical section.
+\* The generation configuration has two addresses: a pass that deletes inline (per-address lock, no
+\* UnbanIP call) lets the driver in only at the debug line it writes AFTER a delete, i.e. between the
+\* deletes of two scanned addresses - the fresh ban the pass wipes is that of the second one.
+\* (The IP manager's twin of this deviation, with storage calls between the deletes: BruteForceLists.tla.)
 CleanScan ==
   /\ "CleanScan" \in Acts /\ Free /\ \A i \in IPs : ~cpend[i]
   /\ fails' = [i \in IPs |-> InWin(fails[i])]
